@@ -47,6 +47,10 @@ func icOnceDo(fr *frame, args []value) value {
 		// (a second goroutine arriving while f runs would block natively;
 		// here f runs to its end first unless it blocks itself)
 		o.done = true
+		// what f writes is published by the Once (every other caller waits
+		// for it): for the isolation monitor these are protected accesses
+		fr.g.nlocks++
+		defer func() { fr.g.nlocks-- }()
 		fr.m.call(fr, 0, args[1], nil)
 	}
 	return nil
